@@ -164,6 +164,9 @@ def run(ctx):
         'journal reader by contract (its byte-level behaviour is C03/C15); sealed journals go through recover_sealed_memtables (same replay code, checked for C04)',
         f'bounds: 2 keyspaces, batches (items, clears) = {getattr(ctx, "shape", None)}, ids and seqnos symbolic 64-bit (< 2^62)',
     ]
+    # every tree of the database (new, recovered, meta) must be wired to the same two counters in the same roles (shared obligations, see wiring.py)
+    from . import wiring
+    wiring.check_all(ctx)
     for o in ctx.obligations:
         ctx.samples.append(o.as_dict())
     return ctx.finish()
